@@ -3,6 +3,7 @@
  * After every step compares: return value/outputs (obs) and the projection
  *   items|iteratorLive|deadElements   (contents read back through the callback iteration API,
  * length through *_len, destructor counts from the driver's own destructor). */
+#define GW_SIMPLE_RUNNER
 #include "gw.h"
 #include "vp_alloc.h"
 #include "public/module/structs/queue.h"
@@ -131,50 +132,42 @@ static int gw_is_nontrivial(const int *prog, int n) {
     return 0;
 }
 
-static int gw_run(const int *prog, int n) {
-    char obs[512], proj[512];
-    long base = vp_outstanding;
+static int gw_is_observer(const gw_edge *e) {
+    const char *a = e->act;
+    return !strcmp(a, "Peek") || !strcmp(a, "Find") || !strcmp(a, "Iterate") || !strcmp(a, "ItrGet");
+}
+static int gw_choice_fixed(const gw_edge *e) { return !strcmp(e->act, "Insert") ? 1 : -1; }
+
+static long base_out;
+static void gw_begin(void) {
+    base_out = vp_outstanding;
     for (int i = 1; i <= NELEM; i++) E[i].dtor = 0;
     QI = NULL; SI = NULL; LI = NULL;
     mk();
-    int rc = 0;
-    for (int i = 0; i < n; i++) {
-        gw_cur_step = i;
-        gw_edge *e = &gw_edges[prog[i]];
-        gw_state *d = &gw_states[e->dst];
-        apply(e, obs, sizeof obs);
-        project(proj, sizeof proj);
-        int ok_obs = !strcmp(obs, d->obs), ok_proj = !strcmp(proj, d->proj);
-        if (ok_obs && ok_proj) continue;
-        if (!strcmp(e->act, "Insert") && gw_sibling_matches(prog[i], 1, obs, proj)) { rc = 3; break; }
-        char sig[128];
-        /* signature: kind, action, which part mismatched, and whether an iterator mutation preceded */
-        int after_itr_mut = 0;
-        const char *mut = "";
-        for (int j = 0; j < i; j++) {
-            const char *a = gw_edges[prog[j]].act;
-            if (!strcmp(a, "ItrRemove") || !strcmp(a, "ItrSet") || !strcmp(a, "ItrInsert")) { after_itr_mut = 1; mut = a; }
-        }
-        snprintf(sig, sizeof sig, "%s-%s-%s%s%s", kind == 0 ? "queue" : kind == 1 ? "stack" : "list", e->act,
-                 ok_obs ? "state" : "ret", after_itr_mut ? "-after-" : "", mut);
-        gw_mismatch(prog, n, i, sig, "expected obs=%s proj=%s ; got obs=%s proj=%s (proj = items|len|iteratorLive|destroyed)",
-                    d->obs, d->proj, obs, proj);
-        rc = 1;
-        break;
+}
+static void gw_step(const gw_edge *e, char *obs, char *proj, size_t n) {
+    apply((gw_edge *)e, obs, n);
+    project(proj, n);
+}
+static void gw_sig(const int *prog, int i, const gw_edge *e, int ok_obs, char *sig, size_t n) {
+    /* signature: kind, action, which part mismatched, and the last iterator mutation that preceded */
+    const char *mut = "";
+    for (int j = 0; j < i; j++) {
+        const char *a = gw_edges[prog[j]].act;
+        if (!strcmp(a, "ItrRemove") || !strcmp(a, "ItrSet") || !strcmp(a, "ItrInsert")) mut = a;
     }
-    /* teardown; everything allocated for this program must be released */
-    gw_cur_step = n;
+    snprintf(sig, n, "%s-%s-%s%s%s", kind == 0 ? "queue" : kind == 1 ? "stack" : "list", e->act,
+             ok_obs ? "state" : "ret", *mut ? "-after-" : "", mut);
+}
+static int gw_end(char *msg, size_t n) {
     if (QI) { memhook._free(QI); QI = NULL; }
     if (SI) { memhook._free(SI); SI = NULL; }
     if (LI) { memhook._free(LI); LI = NULL; }
     fr();
-    if (rc == 0 && vp_outstanding != base) {
-        gw_mismatch(prog, n, n - 1, kind == 0 ? "queue-leak" : kind == 1 ? "stack-leak" : "list-leak",
-                    "allocator ledger: %ld blocks outstanding after free", vp_outstanding - base);
-        rc = 1;
-        vp_outstanding = base;
-    }
-    return rc;
+    long left = vp_outstanding - base_out;
+    vp_outstanding = base_out;
+    if (left) { snprintf(msg, n, "allocator ledger: %ld blocks outstanding after free", left); return 1; }
+    return 0;
 }
 
 int main(int argc, char **argv) {
